@@ -20,7 +20,8 @@ type modelCase struct {
 	Expected   map[string]*hx.TJ `json:"expected,omitempty"`
 	Cmp        hx.Cmp            `json:"cmp"`
 	Desc       string            `json:"desc,omitempty"`
-	Graph      string            `json:"graph,omitempty"` // human-readable program text
+	Graph      string            `json:"graph,omitempty"`  // human-readable program text
+	Repeat     int               `json:"repeat,omitempty"` // error expected: number of Runs that must ALL be refused (map-order luck)
 }
 
 func init() {
@@ -73,6 +74,14 @@ func (c *modelCase) run() *hx.Violation {
 		}
 		return hx.OK("ran/nopanic")
 	case "error":
+		// a request with two or more entries is walked in map order, which Go randomises per iteration: a refusal that
+		// depends on which entry is looked at first shows in some of the repetitions only
+		for rep := 1; res.Err != nil && res.Panic == "" && rep < c.Repeat; rep++ {
+			res = hx.RunModelBytes(b, feed, names)
+		}
+		if res.Panic != "" {
+			return mk("panic", res.Panic)
+		}
 		if res.Err == nil {
 			return mk("not-refused", fmt.Sprintf("expected an error, Run returned %d outputs", len(res.Outs)))
 		}
